@@ -13,9 +13,23 @@ def crop():
     out = ["From Pan Require Import Base.Common."]
     src = ast.unparse(f)
     for need in ["for ax in itertools.combinations(reversed(range(N)), N - 1):\n        out.extend(np.where(np.any(a=img, axis=ax))[0][[0, -1]])",
-                 "for i in range(0, len(out), 2)", "px_dist = np.ones(N, dtype=np.uint8) * px_dist"]:
+                 "px_dist = np.ones(N, dtype=np.uint8) * px_dist"]:
         if need not in src:
             raise Refuse("_get_bbox_nd: missing " + need.split("\n")[0])
+    # one slice per axis: either the index of the lower bound runs in steps of two (out[i], out[i + 1], axis i // 2)
+    # or the axis runs (out[2 * d], out[2 * d + 1], axis d)
+    gens = [g for n in ast.walk(f) if isinstance(n, (ast.GeneratorExp, ast.ListComp)) for g in n.generators if not g.ifs]
+    gens += [n for n in ast.walk(f) if isinstance(n, ast.For)]              # the same loop written as a statement
+    gens = [g for g in gens if isinstance(g.target, ast.Name)]
+    forms = {}
+    for g in gens:
+        v, it = g.target.id, ast.unparse(g.iter)
+        if it == "range(0, len(out), 2)":
+            forms = {f"out[{v}]": "LO__", f"out[{v} + 1]": "HI__", f"px_dist[{v} // 2]": "PAD__", f"shp[{v} // 2]": "SHAPE__"}
+        elif it == "range(len(out) // 2)":
+            forms = {f"out[2 * {v}]": "LO__", f"out[2 * {v} + 1]": "HI__", f"px_dist[{v}]": "PAD__", f"shp[{v}]": "SHAPE__"}
+    if not forms:
+        raise Refuse("_get_bbox_nd: missing for i in range(0, len(out), 2)")
     sl = None
     for n in ast.walk(f):
         if isinstance(n, ast.Call) and dotted(n.func) == "slice" and len(n.args) == 2:
@@ -31,7 +45,7 @@ def crop():
         (a, ta), (b, tb) = args
         return (f"(Z.min {a} {b})", "Z")
     text = [ast.unparse(a) for a in sl.args]
-    sub = {"out[i]": "LO__", "out[i + 1]": "HI__", "px_dist[i // 2]": "PAD__", "shp[i // 2]": "SHAPE__"}
+    sub = dict(sorted(forms.items(), key=lambda kv: -len(kv[0])))       # longer patterns first (out[2 * d + 1] before out[2 * d])
     terms = []
     for t in text:
         for k, v in sub.items():
